@@ -6,6 +6,7 @@ import (
 	"fmt"
 	"os"
 	"path/filepath"
+	"strings"
 
 	"github.com/tailscale/setec/audit"
 	"github.com/tailscale/setec/db"
@@ -53,11 +54,26 @@ func RunTamper(s *kernel.Sim, prof *Profile) *Env {
 	// the audit log file is secret-bearing too (names): owner-only at creation
 	if aw, err := audit.NewFile(filepath.Join(e.Dir, "audit.log")); err == nil {
 		aw.WriteEntries(&audit.Entry{Action: "get", Secret: e.Names[0]})
-		aw.Close()
-		if fi, err := os.Stat(filepath.Join(e.Dir, "audit.log")); err == nil && fi.Mode().Perm()&0o077 != 0 {
-			e.fail("tamper", "audit log file created with mode %v (must be owner-only)", fi.Mode().Perm())
+		if t.Bool(1, 25) {
+			// a log that has grown large (tens of MiB): whatever the writer does
+			// about size, every file it creates is secret-bearing
+			big := strings.Repeat("n", 1<<20)
+			for i := 0; i < 40; i++ {
+				aw.WriteEntries(&audit.Entry{Action: "get", Secret: fmt.Sprintf("%s-%d", big, i)})
+			}
+			s.Fault("audit-log-grown-large")
 		}
-		os.Remove(filepath.Join(e.Dir, "audit.log"))
+		aw.Close()
+		ents, _ := os.ReadDir(e.Dir)
+		for _, ent := range ents {
+			if !strings.HasPrefix(ent.Name(), "audit") {
+				continue
+			}
+			if fi, err := os.Stat(filepath.Join(e.Dir, ent.Name())); err == nil && fi.Mode().IsRegular() && fi.Mode().Perm()&0o077 != 0 {
+				e.fail("tamper", "audit log file %s created with mode %v (must be owner-only)", ent.Name(), fi.Mode().Perm())
+			}
+			os.Remove(filepath.Join(e.Dir, ent.Name()))
+		}
 	}
 	want := e.Model.DumpVisible()
 	orig := e.ReadFile()
